@@ -40,6 +40,9 @@ CLAIMED['C28'] = ("one probe round of a replica without strategy from an arbitra
 CLAIMED['C14'] = ("CalcParams' count, offsets and accept/reject decision equal a MySQL lexical reference (strings with backslash escapes and doubled quotes, quoted identifiers, the three comment forms) on statements 'select I1,I2 T' whose items are ?, 'S', \"S\", `S`, 1/*S*/ with a 2-byte symbolic piece S over the characters that matter to a scanner, and comment tails",
     "template statements only (free text through the yacc parser is out of reach); natively every replay also cross-checks the reference against the real parser's ParamMarkerExpr count when the text parses; the divergences for escaped quotes, quoted identifiers and comments are known findings C14-calcparams-not-a-lexer")
 
+CLAIMED['C21'] = ("checkSQLAllowed for a read-only user (with and without read/write splitting) rejects exactly the write vocabulary (insert, replace, update, delete, create, alter, drop, truncate, rename, load) and admits the read vocabulary, for texts lead+keyword+separator+rest with the case of every keyword letter symbolic, the separator any ASCII whitespace byte and leads from whitespace / block comment / line comment / hash comment / parenthesis",
+    "the direct-query gate only (multi-statement pieces and prepared execution reach the same checkSQLAllowed through doQuery/handleQuery, which is not re-proved here); '/*! ... */' executable comments, CALL/GRANT and statements beyond the listed vocabulary are outside the bound; strings.ToLower replaced by a non-forking ASCII equivalent under the engine")
+
 NA_REASON = "check not built yet (work in progress; see DESIGN.md section 3 for the planned harness)"
 NA = {}
 
